@@ -97,3 +97,11 @@ claim("C09", "fault_enumeration",
       "names exactly the unloaded cores; retries address exactly the missing cores; attempts bounded; no other core changed.",
       "SimMachine flood-fill semantics (a chip receives a whole fill or none); binaries are whole words.",
       "DESIGN.md section 4, C09")
+claim("C10", "exploration",
+      "(a) routing_tree_to_tables on every tree of a generated family (all child subsets to depth 2 on a 3x2 grid, leaf variants incl. "
+      "route-less leaves and link endpoints) singly and in every ordered pair with same/different key+mask, against an independent "
+      "traversal (routes, sources, multi-source error iff forks differ). (b) the real load_routing_table_entries / load_routing_tables / "
+      "get_routing_table_entries against a simulated router: every route bit, every pair, all 64 link subsets x core sets, key/mask "
+      "extremes, lengths up to 1023/1024, app ids, two chips, nine free-list states; router contents, order, app tag, block, untouched "
+      "other entries/chips, error iff no block fits, read-back equality.",
+      "SimMachine router/alloc commands from the controller's docstrings; router entry 0 reserved.", "DESIGN.md section 4, C10")
